@@ -1,4 +1,5 @@
 import ServiceModel.Proofs.Reachable
+import ServiceModel.Proofs.ModSvc
 /-!
 # C14 — An available binding always holds the minimum deposit for its price
 -/
@@ -95,5 +96,22 @@ theorem slash_disables_below_minimum {s s1 : State} {r : ReqId} {svc : SvcName} 
       · refine ⟨md, _, rfl, Map.get_set_same _ _ _, ?_, ?_⟩
         · intro hl; rw [if_neg hlt] at hl; simp only at hl; omega
         · intro _; rw [if_neg hlt]; exact ⟨hav, rfl⟩
+
+/-- The same after a module-service call (`callMod`, outside `step`; one step from every reachable state): a malformed
+    answer of the module slashes the module's own provider, and a binding left below its minimum is no longer
+    available. -/
+theorem available_holds_minimum_after_module_service_call (hc : CfgOK cfg p) {s : State} (hr : Reachable cfg p h0 t0 s)
+    (id : CtxId) (svc : SvcName) (prov cons : Addr) (cap : Option Nat) (inputOk : Bool) (code : Nat) (out : OutKind)
+    (hcons : ¬ s.modAcct cons)
+    (k : SvcName × Addr) (b : Binding)
+    (hb : Map.get (callMod s id svc prov cons cap inputOk code out).1.bindings k = some b) (hav : b.avail = true) :
+    ∃ pr, Map.get (callMod s id svc prov cons cap inputOk code out).1.pricing k = some pr ∧ parsePricing b.text = .ok pr ∧
+      max (callMod s id svc prov cons cap inputOk code out).1.params.minDep
+        (pr.base * (callMod s id svc prov cons cap inputOk code out).1.params.mult) ≤ b.deposit := by
+  have hB := callMod_invB s id svc prov cons cap inputOk code out (reachable_inv hc hr) hcons
+  obtain ⟨pr, md, hpr, hmd, hle⟩ := hB.minDep k b hb hav
+  obtain ⟨pr2, hpr2, hparse, _⟩ := hB.priced k b hb
+  rw [hpr] at hpr2; injection hpr2 with hpr2; subst hpr2
+  exact ⟨pr, hpr, hparse, by rw [← minDeposit_eq_max _ _ _ hmd]; exact hle⟩
 
 end SM.C14
